@@ -415,8 +415,40 @@ class Interp:
                 if path is None:
                     continue
                 x = self._rule_test(path)
+                if x is None and o.kind == "agg" and "closure" in o.rv:
+                    # `|head| head.as_rule() == rule` with `rule` captured (a parameter of an inlined helper such as
+                    # `next_is(Rule::identifier, &pairs)`): the captured operand is a Rule literal in this body
+                    x = self._rule_test_captured(f, du, o.rv)
                 if x is not None:
                     return x
+        return None
+
+    def _rule_test_captured(self, f, du, clo_rv):
+        g = self.F.fns.get(clo_rv["closure"])
+        if g is None:
+            return None
+        callsl = list(mir.calls(g))
+        eqs = [(bi, t) for bi, t in callsl if (t.get("callee") == "std::cmp::PartialEq::eq" and "parsing::Rule" in (t.get("resolved") or ""))]
+        others = [t for bi, t in callsl if (bi, t) not in eqs and t.get("callee") != "pest::iterators::Pair::<'i, R>::as_rule"]
+        if len(eqs) != 1 or others:
+            return None
+        bi, t = eqs[0]
+        dg = mir.DefUse(g)
+        ret = mir.provenance(g, dg, {"l": 0, "p": []})
+        if not (t["dest"]["l"] == 0 or any(o.kind == "call" and o.bb == bi for o in ret)):
+            return None
+        for a in t["args"]:
+            for o in mir.provenance(g, dg, a):
+                if o.kind == "arg" and o.local == 1 and o.proj and o.proj[0][1:].isdigit():
+                    idx = int(o.proj[0][1:])
+                    if idx < len(clo_rv.get("ops") or []):
+                        for o2 in mir.provenance(f, du, clo_rv["ops"][idx]):
+                            if o2.kind == "agg" and o2.rv.get("adt") == RULE_ADT:
+                                return o2.rv["variant"]
+                            if o2.kind == "const":
+                                r = self._rule_of_const(o2.const)
+                                if r:
+                                    return r
         return None
 
     def _rule_test(self, path):
